@@ -1,8 +1,9 @@
 import TensorModel.Ext.Hooks
 import TensorModel.Ext.MinMax
+import TensorModel.Ext.Engines
 /-! Registry of operation families (one import + one list entry per family). -/
 namespace TM
 
-def families : List Family := [minMaxFamily]
+def families : List Family := [minMaxFamily, enginesFamily]
 
 end TM
